@@ -127,7 +127,7 @@ func (c07) Gen(tier string, seed int64, emit func([]Ev)) {
 	r := rand.New(rand.NewSource(seed))
 	reps := 10
 	if tier == "thorough" {
-		reps = 120
+		reps = 600
 	}
 	for rep := 0; rep < reps; rep++ {
 		for n := 0; n <= 42; n++ { // 42 entries is the single-packet limit (1 + 12 + 4n <= 184)
